@@ -4,3 +4,4 @@ import PyRt.Str
 import PyRt.Misc
 import PyRt.Stub
 import PyRt.Date
+import PyRt.WireDate
